@@ -10,6 +10,8 @@
 (*                         configuration submitted since the last application  *)
 (*                         is applied first (implicit ApplyConfiguration)      *)
 (*   SetVertexGenerator(v, owned)  the user installs a vertex generator        *)
+(*   TouchGun              the user changes the multiplicity of the action's   *)
+(*                         particle gun (public accessor, /gun/number)          *)
 (*                                                                            *)
 (* What the property demands, and what is therefore fixed here:               *)
 (*  (V) a submitted configuration is REFUSED in exactly the cases in which    *)
@@ -184,8 +186,16 @@ SetVertexGenerator(v, owned) ==
   /\ vg' = v /\ last' = "ok" /\ handed' = <<>>
   /\ UNCHANGED <<iface, changed, cur, live, shots>>
 
+\* between two events the user (or the macro command /gun/number) changes the multiplicity of the action's particle gun
+\* (GetParticleGun() is public).  Nothing of the protocol state moves: the action re-arms the gun for single shots before every
+\* particle, the next request of primaries hands over one primary per BxDecay0 particle as before.
+TouchGun ==
+  /\ last' = "ok" /\ handed' = <<>>
+  /\ UNCHANGED <<iface, changed, cur, live, shots, vg>>
+
 Next ==
   \/ \E c \in Configs : SetConfiguration(c)
+  \/ TouchGun
   \/ ApplyConfiguration
   \/ DestroyConfiguration
   \/ GeneratePrimaries
